@@ -47,6 +47,7 @@ func (b *backend) Watch(ctx context.Context, prefix string, revision uint64) (<-
 		return nil, err
 	}
 
+	verifPoint(b, "afterSubscribe", revision)
 	result := make(chan []*proto.Event, resultChanLength)
 
 	// include the current revision in list
@@ -56,6 +57,7 @@ func (b *backend) Watch(ctx context.Context, prefix string, revision uint64) (<-
 	}
 
 	ret := b.watchCache.FindEvents(revision)
+	verifPoint(b, "afterCacheRead", revision)
 
 	if ret.empty {
 		if revision > b.tso.GetRevision() {
